@@ -170,6 +170,9 @@ pub enum BwdTrace {
         /// the five fields live on three objects (F, G, H) instead of one
         #[serde(default)]
         objects: bool,
+        /// the third value of plain string fields is the empty string
+        #[serde(default)]
+        empty: bool,
     },
     Frames {
         hash_seed: u64,
@@ -185,6 +188,16 @@ thread_local! {
     /// objects mode of the run executing on this thread: the five fields on one object `F` (false), or
     /// spread over three objects `F`, `G`, `H` (true) — candidate lookup goes by object
     static OBJECTS: std::cell::Cell<bool> = const { std::cell::Cell::new(false) };
+    /// the third value of plain string fields is the EMPTY string instead of "w" (trace field `empty`)
+    static EMPTY: std::cell::Cell<bool> = const { std::cell::Cell::new(false) };
+}
+
+fn str_val(lit: u8) -> &'static str {
+    if EMPTY.with(|e| e.get()) {
+        ["u", "v", ""][lit as usize % 3]
+    } else {
+        ["u", "v", "w"][lit as usize % 3]
+    }
 }
 
 fn fkey(f: u8) -> String {
@@ -199,7 +212,7 @@ fn fkey(f: u8) -> String {
 fn lit_value(ty: Ty, lit: u8) -> Value {
     match ty {
         Ty::Bool => Value::Boolean(lit % 2 == 1),
-        Ty::Str => Value::String(["u", "v", "w"][lit as usize % 3].to_string()),
+        Ty::Str => Value::String(str_val(lit).to_string()),
         Ty::Int => Value::Integer((lit % 3) as i64),
         Ty::Text => Value::String(TEXT_VALUES[lit as usize % 3].to_string()),
     }
@@ -208,7 +221,7 @@ fn lit_value(ty: Ty, lit: u8) -> Value {
 fn lit_text(ty: Ty, lit: u8) -> String {
     match ty {
         Ty::Bool => (lit % 2 == 1).to_string(),
-        Ty::Str => format!("\"{}\"", ["u", "v", "w"][lit as usize % 3]),
+        Ty::Str => format!("\"{}\"", str_val(lit)),
         Ty::Int => (lit % 3).to_string(),
         Ty::Text => format!("\"{}\"", TEXT_VALUES[lit as usize % 3]),
     }
@@ -915,7 +928,7 @@ fn run_search(
                 obs.count("probe.caller_changed_a_fact");
             }
             BOp::CallerFrame(k) => {
-                if prop == "C11" {
+                if prop == "C11" || prop == "C10" {
                     match k % 3 {
                         0 => {
                             facts.begin_undo_frame();
@@ -1041,8 +1054,10 @@ fn run_search(
                 for hs in alt_hash_seeds {
                     let (types2, rules2, enabled2, before2, gt2, cfg2) = (types.to_vec(), rules.to_vec(), enabled.clone(), before.clone(), gt.clone(), mkcfg(max_depth, strategy, max_solutions, memo));
                     let objects2 = OBJECTS.with(|o| o.get());
+                    let empty2 = EMPTY.with(|e| e.get());
                     let r = hashseed::on_seeded_thread(*hs, move || {
                         OBJECTS.with(|o| o.set(objects2));
+                        EMPTY.with(|e| e.set(empty2));
                         let mut e3 = BackwardEngine::with_config(build_kb_with(&types2, &rules2, &enabled2), cfg2);
                         let mut f3 = facts_from(&before2);
                         let rete3: Option<Arc<Mutex<IncrementalEngine>>> = if attach_rete { Some(Arc::new(Mutex::new(IncrementalEngine::new()))) } else { None };
@@ -1409,7 +1424,7 @@ fn gen_search(rng: &mut Rng, hash_seed: u64, c11_ops: bool, with_negation: bool)
     let nops = 1 + rng.usize(6);
     let mut ops = Vec::new();
     for _ in 0..nops {
-        let w = rng.weighted(&[55, 20, 5, 5, if attach_rete { 8 } else { 0 }, if attach_rete { 6 } else { 0 }, if c11_ops { 8 } else { 0 }, 6, 5, if c11_ops { 8 } else { 0 }, 6, if c11_ops { 4 } else { 0 }]);
+        let w = rng.weighted(&[55, 20, 5, 5, if attach_rete { 8 } else { 0 }, if attach_rete { 6 } else { 0 }, if c11_ops { 8 } else { 0 }, 6, 5, if c11_ops { 8 } else { 0 }, 6, if c11_ops || with_negation { 4 } else { 0 }]);
         ops.push(match w {
             0 => {
                 if with_negation && rng.chance(1, 4) {
@@ -1439,7 +1454,7 @@ fn gen_search(rng: &mut Rng, hash_seed: u64, c11_ops: bool, with_negation: bool)
         ops.push(BOp::Query(g));
     }
     // C11, one history in six ends with the caller's "what if": ask, open a frame, write, ask, roll back, ask again
-    if c11_ops && rng.chance(1, 6) {
+    if (c11_ops || with_negation) && rng.chance(1, 6) {
         let g = rng.below(3) as u8;
         ops.push(BOp::Query(g));
         ops.push(BOp::CallerFrame(0));
@@ -1449,13 +1464,13 @@ fn gen_search(rng: &mut Rng, hash_seed: u64, c11_ops: bool, with_negation: bool)
         ops.push(BOp::Query(g));
     }
     ops.push(BOp::Query(rng.below(3) as u8));
-    // C11, one history in 150 is LONG: the caller re-asserts an unrelated fact with a new value 70-110 times —
+    // C11, one history in 400 is LONG: the caller re-asserts an unrelated fact with a new value 70-90 times —
     // every one a fact state the engine has not seen — asking the same query each time, then writes a premise
     // and asks again (a memo table, an id space or a cache that only behaves differently after dozens of states)
-    if c11_ops && rng.chance(1, 150) {
+    if c11_ops && rng.chance(1, 400) {
         let g = rng.below(3) as u8;
         let mut long: Vec<BOp> = Vec::new();
-        for i in 0..70 + rng.below(41) {
+        for i in 0..70 + rng.below(21) {
             long.push(BOp::AssertAux(i as u8));
             long.push(BOp::Query(g));
         }
@@ -1479,6 +1494,7 @@ fn gen_search(rng: &mut Rng, hash_seed: u64, c11_ops: bool, with_negation: bool)
         attach_rete,
         ops,
         objects: rng.chance(1, 3),
+        empty: rng.chance(1, 4),
     }
 }
 
@@ -1566,11 +1582,15 @@ impl World for BwdWorld {
                     Ok(())
                 }
             }
-            BwdTrace::Search { alt_hash_seeds, types, init, rules, goals, max_depth, strategy, max_solutions, memo, attach_rete, ops, objects, .. } => {
+            BwdTrace::Search { alt_hash_seeds, types, init, rules, goals, max_depth, strategy, max_solutions, memo, attach_rete, ops, objects, empty, .. } => {
                 if types.len() != NF || init.len() != NF || rules.is_empty() {
                     return Ok(());
                 }
                 OBJECTS.with(|o| o.set(*objects));
+                EMPTY.with(|e| e.set(*empty));
+                if *empty && types.contains(&Ty::Str) {
+                    obs.count("probe.empty_string_as_a_value_and_literal");
+                }
                 if *objects {
                     obs.count("probe.fields_on_three_objects");
                 }
@@ -1599,7 +1619,7 @@ impl World for BwdWorld {
                     out.push(BwdTrace::Frames { hash_seed: 1, ops: ops.clone() });
                 }
             }
-            BwdTrace::Search { hash_seed, alt_hash_seeds, types, init, rules, goals, max_depth, strategy, max_solutions, memo, attach_rete, ops, objects } => {
+            BwdTrace::Search { hash_seed, alt_hash_seeds, types, init, rules, goals, max_depth, strategy, max_solutions, memo, attach_rete, ops, objects, empty } => {
                 let mk = |alt: &Vec<u64>, rules: &Vec<BRule>, goals: &Vec<BAtom>, ops: &Vec<BOp>, max_depth: usize, max_solutions: usize, memo: bool, attach: bool, init: &Vec<u8>, hs: u64| BwdTrace::Search {
                     hash_seed: hs,
                     alt_hash_seeds: alt.clone(),
@@ -1614,6 +1634,7 @@ impl World for BwdWorld {
                     attach_rete: attach,
                     ops: ops.clone(),
                     objects: *objects,
+                    empty: *empty,
                 };
                 for v in drop_chunks(ops) {
                     out.push(mk(alt_hash_seeds, rules, goals, &v, *max_depth, *max_solutions, *memo, *attach_rete, init, *hash_seed));
